@@ -481,7 +481,7 @@ def gen_passive_close(rng, variant=None):
     exchange completes inside the pump.  variant 2: the child is reset while still half-open,
     the host stays idle, the listener is closed and its address bound again."""
     hosts = [["10.0.0.1", "10.0.0.2"], ["10.0.1.1"]]
-    variant = rng.randrange(3) if variant is None else variant
+    variant = rng.randrange(4) if variant is None else variant      # 3: both ends close before anything is pumped
     port = rng.choice([5000, 6000, 6001])
     la = rng.choice(["0.0.0.0", "10.0.0.1", "10.0.0.2"])
     sip = la if la != "0.0.0.0" else rng.choice(["10.0.0.1", "10.0.0.2"])
@@ -494,8 +494,14 @@ def gen_passive_close(rng, variant=None):
                    ["listen", 0, la, port], ["close", 1], ["listen", 0, sip, port], ["bind_udp", 0, sip, port]]
         return {"mode": "net", "cfg": {"hosts": hosts}, "script": script, "flavour": "passive-close"}
     script += [["set_cursor", 1, cur], ["connect", 1, [sip, port]], ["pump"], ["poll", 1], ["accept", 0]]   # handles 1 (client), 2 (server side)
-    first, second = (1, 2) if variant == 0 else (2, 1)
-    script += [["close", first], ["pump"], ["recv_all"], ["close", second], ["pump"]]
+    first, second = (1, 2) if variant in (0, 3) else (2, 1)
+    if variant == 3:
+        # simultaneous close: the two FINs cross (FIN_WAIT1 -> CLOSING -> closed on both sides); seed C17-B8
+        if rng.random() < 0.5:
+            first, second = second, first
+        script += [["close", first], ["close", second], ["pump"], ["recv_all"], ["pump"]]
+    else:
+        script += [["close", first], ["pump"], ["recv_all"], ["close", second], ["pump"]]
     for _ in range(rng.randrange(0, 3)):
         script.append(["pump"])                                           # silence
     # the client's (address, ephemeral port) is free again, for an explicit bind and for port 0
